@@ -1172,6 +1172,10 @@ def mpf_exp(x, prec, rnd=round_fast):
             return mpf_pow_int(e, man<<exp, prec, rnd)
         if mag <= -wp:
             return mpf_perturb(fone, sign, prec, rnd)
+        # For |x| < 1, exp(x) - (1+x) ~ x^2/2 must be resolved when 1+x is
+        # representable, or directed rounding returns 1+x itself
+        if mag < 0:
+            wp -= mag
         # |x| >= 2
         if mag > 1:
             # For large arguments: exp(2^mag*(1+eps)) =
